@@ -121,6 +121,7 @@ def gen_cases(ctx):
                     for code in (-32600, 1, 0, 7001):
                         yield dict(part='batch', kind=kind, strict=strict, n=n, notif=False, via=via, entries=(), level=code)
     # singles
+    yield from gen_extra(ctx)
     for kind in ('sync', 'async'):
         for strict in (True, False):
             for req_id in (1, '1', 0, '', -1, 'abc'):
@@ -418,10 +419,140 @@ def run_single(c, rec):
     return got[0]
 
 
+def gen_extra(ctx):
+    # (i) requests passed inline: nobody but the library holds them once send() has returned
+    for kind in ('sync', 'async'):
+        for strict in (True, False):
+            for shape in ('single', 'batch', 'batch-notif'):
+                for order in ('same', 'reversed'):
+                    if shape == 'single' and order == 'reversed':
+                        continue
+                    yield dict(part='inline', kind=kind, strict=strict, shape=shape, order=order)
+    # (ii) a hand-built BatchRequest(strict=False) in which calls share an id: a response array cannot answer every call
+    patterns = [(1, 1), (1, 2, 1), (1, 1, 2), (1, 2, 2), (7, 7, 7)]
+    for ids in patterns:
+        alphabet = [(i, ok) for i in sorted(set(ids)) + [99] for ok in (True, False)]
+        for L in range(1, len(ids) + 1):
+            for entries in itertools.product(alphabet, repeat=L):
+                for kind in ('sync', 'async'):
+                    yield dict(part='dupreq', kind=kind, ids=ids, entries=entries)
+    # (iii) E4: two / three single calls with different ids in flight on ONE asynchronous client; every call is answered with its own id,
+    #       with the id of another pending call (cross-wired) or with an unknown id; every order in which the transport answers
+    for n in (2, 3):
+        for answers in itertools.product(('own', 'next', 'unknown'), repeat=n):
+            for strict in (True, False):
+                yield dict(part='overlap', n=n, answers=answers, strict=strict)
+
+
+def run_inline(c, rec):
+    import gc
+    n = 3
+    if c['shape'] == 'single':
+        body = json.dumps({'jsonrpc': '2.0', 'id': 5, 'result': 'r'})
+    else:
+        doc = [{'jsonrpc': '2.0', 'id': i + 1, 'result': i} for i in range(n)]
+        body = json.dumps(doc if c['order'] == 'same' else doc[::-1])
+    client = make_client(c['kind'], lambda text, is_notif, kw: body, strict=c['strict'])
+    if c['shape'] == 'single':
+        out = drive(c['kind'], lambda: client.send(Request('m', [1], id=5)))
+    else:
+        out = drive(c['kind'], lambda: client.batch.send(BatchRequest(*([Request('m%d' % i, [i], id=i + 1) for i in range(n)] + ([Request('note', [0])] if c['shape'] == 'batch-notif' else [])))))
+    rec.transitions += 1
+    gc.collect()
+    got = classify(out)
+    if got[0] != 'ok':
+        return bad(rec, c, 'C08:inline:acceptable response refused', 'accepted', show(got))
+    resp = got[1]
+    items = [resp] if c['shape'] == 'single' else list(resp)
+    want = [(5, 'm')] if c['shape'] == 'single' else [(i + 1, 'm%d' % i) for i in range(n)]
+    seen = [(r.id, getattr(r.related, 'method', None)) if getattr(r.related, 'id', None) == r.id else (r.id, 'NOT-LINKED') for r in items]
+    rec.nontrivial_n += 1
+    if seen != want:
+        return bad(rec, c, 'C08:inline:an accepted response is not linked to the request with the same id (the request was passed inline)', want, seen)
+    return 'ok'
+
+
+def run_dupreq(c, rec):
+    ids = list(c['ids'])
+    doc = []
+    for pos, (i, ok) in enumerate(c['entries']):
+        o = {'jsonrpc': '2.0', 'id': i}
+        o.update({'result': pos} if ok else {'error': {'code': 1000 + pos, 'message': 'e'}})
+        doc.append(o)
+    body = json.dumps(doc)
+    client = make_client(c['kind'], lambda text, is_notif, kw: body, strict=True)
+    req = BatchRequest(*[Request('m%d' % k, [k], id=i) for k, i in enumerate(ids)], strict=False)
+    out = drive(c['kind'], lambda: client.batch.send(req))
+    rec.transitions += 1
+    got = classify(out)
+    rec.outcomes['dupreq:' + got[0]] += 1
+    # more calls than distinct ids: whatever the array holds, some call has no response of its own (a response array cannot repeat an id)
+    if got[0] != 'identity':
+        return bad(rec, c, 'C08:batch:mismatching response accepted (missing response; calls sharing an id in a non-strict request container)', 'IdentityError', show(got))
+    rec.nontrivial_n += 1
+    return got[0]
+
+
+def run_overlap(c, rec):
+    import asyncio
+    from mc.core import explore_choices
+    from mc.vloop import VLoop
+    n, answers, strict = c['n'], list(c['answers']), c['strict']
+    ids = [10 * (i + 1) for i in range(n)]
+    sched = 0
+
+    def once(env):
+        async def responder(text, is_notif, kw):
+            doc = json.loads(text)
+            i = ids.index(doc['id'])
+            await asyncio.get_running_loop().gate(('answer', i))
+            rid = {'own': ids[i], 'next': ids[(i + 1) % n], 'unknown': 99}[answers[i]]
+            return json.dumps({'jsonrpc': '2.0', 'id': rid, 'result': {'to': ids[i]}})
+        client = make_client('async', responder, strict=strict)
+
+        async def one(i):
+            try:
+                r = await client.send(Request('m', [i], id=ids[i]))
+                return ('ok', r.id, r.result, getattr(r.related, 'id', None))
+            except IdentityError:
+                return ('identity',)
+            except Exception as e:   # noqa
+                return ('exc', type(e).__name__)
+
+        async def go():
+            return await asyncio.gather(*[one(i) for i in range(n)])
+        loop = VLoop()
+        try:
+            return loop.run(go(), choose=lambda labels: env.choose(('gate', tuple(sorted(labels))), len(labels)))
+        finally:
+            loop.close()
+    for choices, out in explore_choices(once, max_exec=5000):
+        sched += 1
+        rec.transitions += n
+        for i in range(n):
+            if answers[i] == 'own':
+                ok = tuple(out[i]) == ('ok', ids[i], {'to': ids[i]}, ids[i])
+                want = ('ok', ids[i])
+            elif strict:
+                ok = tuple(out[i]) == ('identity',)
+                want = 'IdentityError'
+            else:
+                ok = out[i][0] == 'ok' and out[i][2] == {'to': ids[i]}
+                want = 'accepted (non-strict)'
+            if not ok:
+                bad(rec, dict(c, choices=list(choices), call=i), 'C08:overlap:' + ('mismatching response id accepted while another call with that id is in flight' if (strict and answers[i] != 'own')
+                                                                                   else 'a call made while another call is in flight did not get its own response'), want, list(out[i]))
+                return 'bad'
+    rec.nontrivial_n += sched
+    rec.counters['overlap schedules'] += sched
+    return sched
+
+
 def run_case(case, rec):
     from mc.core import Recorder
     r = Recorder()
-    obs = run_batch(case, r) if case['part'] == 'batch' else run_single(case, r)
+    fn = {'batch': run_batch, 'single': run_single, 'inline': run_inline, 'dupreq': run_dupreq, 'overlap': run_overlap}[case['part']]
+    obs = fn(case, r)
     r.states += 1
     r.traces += 1
     rec.merge(r)
